@@ -1146,6 +1146,75 @@ func init() {
 				sb.WriteString("]")
 				addLaw(c16Law{"apiref", ".Individuals | {e: .AllEvents | Only(.Tag | .Tag = \"BIRT\") | Length}",
 					strings.ReplaceAll(sb.String(), "[ ]", "[  ]") + c16sep + "Only(…) over .AllEvents differs from counting through the Go API", d})
+				// operands whose Go type is a named integer with a String() method (time.Month,
+				// DateConstraint, AgeConstraint, time.Duration): the rule compares their %v TEXT
+				// ("January", "Abt.", "0s"), numerically only if that text parses as a number — against
+				// number constants, numeric fields (.Day, .Year) and Length, all six operators, both orders
+				{
+					type operand struct {
+						expr string
+						text func(gedcom.Date) string
+					}
+					named := []operand{{".Month", func(d gedcom.Date) string { return fmt.Sprintf("%v", d.Month) }},
+						{".Constraint", func(d gedcom.Date) string { return fmt.Sprintf("%v", d.Constraint) }}}
+					others := []operand{{"1", func(gedcom.Date) string { return "1" }}, {"0", func(gedcom.Date) string { return "0" }}, {"6", func(gedcom.Date) string { return "6" }},
+						{"9", func(gedcom.Date) string { return "9" }}, {`"January"`, func(gedcom.Date) string { return "January" }}, {`"september"`, func(gedcom.Date) string { return "september" }},
+						{".Day", func(d gedcom.Date) string { return fmt.Sprintf("%v", d.Day) }}, {".Year", func(d gedcom.Date) string { return fmt.Sprintf("%v", d.Year) }},
+						{"Length", func(gedcom.Date) string { return "1" }}, {".Month", func(d gedcom.Date) string { return fmt.Sprintf("%v", d.Month) }}}
+					var dates []gedcom.Date
+					for _, ind := range doc.Individuals() {
+						b, _ := ind.Birth()
+						dates = append(dates, b.StartDate())
+					}
+					for k := 0; k < 6; k++ {
+						a, o2, opn := named[ri.Intn(len(named))], others[ri.Intn(len(others))], ri.Pick(c16ops)
+						for _, flip := range []bool{false, true} {
+							l, rr := a, o2
+							if flip {
+								l, rr = o2, a
+							}
+							sb.Reset()
+							sb.WriteString("[ ")
+							for _, d := range dates {
+								if c16refCompare(l.text(d), rr.text(d), opn) {
+									sb.WriteString("t ")
+								} else {
+									sb.WriteString("f ")
+								}
+							}
+							sb.WriteString("]")
+							addLaw(c16Law{"apiref", ".Individuals | .Birth | .StartDate | " + l.expr + " " + opn + " " + rr.expr,
+								strings.ReplaceAll(sb.String(), "[ ]", "[  ]") + c16sep + "a comparison with a named-integer operand (Month, Constraint: compared by their text) differs from the rule computed from the Go API values", d})
+						}
+					}
+					// Age: the constraint (named integer) and the duration of an unknown age ("0s")
+					opa, ca := ri.Pick(c16ops), ri.Pick([]string{"0", "1", "2", `"Living"`, `""`})
+					sb.Reset()
+					sb.WriteString("[ ")
+					var sbAge strings.Builder
+					sbAge.WriteString("[ ")
+					for _, ind := range doc.Individuals() {
+						age, _ := ind.Age()
+						if c16refCompare(fmt.Sprintf("%v", age.Constraint), c16litValue(strings.Trim(ca, `"`)), opa) {
+							sb.WriteString("t ")
+						} else {
+							sb.WriteString("f ")
+						}
+						if c16refCompare(fmt.Sprintf("%v", age.Age), "0", "=") {
+							sbAge.WriteString("t ")
+						} else {
+							sbAge.WriteString("f ")
+						}
+					}
+					sb.WriteString("]")
+					sbAge.WriteString("]")
+					addLaw(c16Law{"apiref", ".Individuals | .Age | .Constraint " + opa + " " + ca,
+						strings.ReplaceAll(sb.String(), "[ ]", "[  ]") + c16sep + "a comparison with Age.Constraint (a named integer, compared by its text) differs from the rule computed from the Go API values", d})
+					addLaw(c16Law{"apiref", ".Individuals | .Age | .Age = 0",
+						strings.ReplaceAll(sbAge.String(), "[ ]", "[  ]") + c16sep + "Age.Age = 0 (a time.Duration, compared by its text: \"0s\" is not the number 0) differs from the rule computed from the Go API values", d})
+					addLaw(c16Law{"apiref", ".Individuals | .Age | 0 = .Age",
+						strings.ReplaceAll(sbAge.String(), "[ ]", "[  ]") + c16sep + "0 = Age.Age differs from the rule computed from the Go API values", d})
+				}
 				// birth years with the constant on the left
 				cy := ri.Pick([]string{"1900", "1926", "1943", "0", "2000"})
 				opy := ri.Pick([]string{"<", "<=", ">", ">=", "<", "<="})
